@@ -358,6 +358,14 @@ func (b *BlockList) setLocked(key string) bool {
 	if _, ok := dns.IsDomainName(key); !ok {
 		return false
 	}
+	// A key ending in a backslash turns the dot the canonical form appends
+	// into an escaped dot: the name is still not rooted, the loader roots
+	// it again at the next start ("x.test\\." comes back as "x.test\\.."),
+	// and the entry that was persisted is not the entry that reloads. The
+	// canonical form of what is stored must be itself.
+	if dns.CanonicalName(key) != key {
+		return false
+	}
 
 	// Refuse to add a block the whitelist would shadow. Exists matches the
 	// whitelist across the hierarchy, so this must too — otherwise adding
